@@ -767,3 +767,8 @@ LEVEL_NOTE = ("Trusted: Coq kernel+VM; Spec/Zone.v, Spec/NativeDT.v, Spec/TdFloa
               "nothing is excluded for them, and known() still recognises the old behaviour so that a regression is reported as a VIOLATION. That the reversed Interval -iv has the negated components is observed on "
               "every case of the harness (components of an Interval are C05/C06).")
 TECHNIQUE = "translation of add_duration + Coq proofs (lia/nia over Z, case analysis) + differential correspondence with a stdlib/zoneinfo oracle"
+
+
+# ---- model = code theorems for the arithmetic entry points (appended) ----
+TRUSTED = [t for t in TRUSTED] + ['model_is_code_add_interval_operand / _add_duration_operand / _sub_duration_operand / _sub_interval_operand: DateTime._add_timedelta_ and _subtract_timedelta translated from /repo for Duration and Interval operands (self.add(**delta._signature) = the eight keyword values, AttributeError without _signature) = dt_add_timedelta / dt_sub_timedelta; model_is_code_date_add / _date_subtract / _date_add_timedelta / _date_add_duration / _date_add_interval / _date_sub_timedelta: Date.add, subtract, _add_timedelta, _subtract_timedelta, __add__ and __sub__ (timedelta operand of every class; a plain timedelta contributes .days, integers only) = date_add / date_subtract / date_add_timedelta / date_sub_timedelta. An operand is the record of its class, native microseconds, accessor values and _signature (by hand, coq/Model/TzGlueObj.v gop). NOT translated (hand-written + pinned): DateTime +/- a PLAIN timedelta (float seconds), the datetime/date operand of `-` and diff (Interval construction, Model/IntervalLen.v), Duration.__neg__']
+LEVEL_NOTE = LEVEL_NOTE + " " + 'model_is_code_add_interval_operand / _add_duration_operand / _sub_duration_operand / _sub_interval_operand: DateTime._add_timedelta_ and _subtract_timedelta translated from /repo for Duration and Interval operands (self.add(**delta._signature) = the eight keyword values, AttributeError without _signature) = dt_add_timedelta / dt_sub_timedelta; model_is_code_date_add / _date_subtract / _date_add_timedelta / _date_add_duration / _date_add_interval / _date_sub_timedelta: Date.add, subtract, _add_timedelta, _subtract_timedelta, __add__ and __sub__ (timedelta operand of every class; a plain timedelta contributes .days, integers only) = date_add / date_subtract / date_add_timedelta / date_sub_timedelta. An operand is the record of its class, native microseconds, accessor values and _signature (by hand, coq/Model/TzGlueObj.v gop). NOT translated (hand-written + pinned): DateTime +/- a PLAIN timedelta (float seconds), the datetime/date operand of `-` and diff (Interval construction, Model/IntervalLen.v), Duration.__neg__' + "."
